@@ -114,6 +114,26 @@ func setCtxs(yylex yyLexer, exprs []ast.Expr, ctx ast.ExprContext) {
 	}
 }
 
+// Build the expression for the dotted name of a decorator: a Name for
+// the first part and an Attribute for each further part (a.b.c is
+// Attribute(Attribute(Name(a), b), c))
+func dottedNameExpr(pos ast.Pos, dotted string) ast.Expr {
+	var expr ast.Expr
+	start := 0
+	for i := 0; i <= len(dotted); i++ {
+		if i == len(dotted) || dotted[i] == '.' {
+			part := ast.Identifier(dotted[start:i])
+			if expr == nil {
+				expr = &ast.Name{ExprBase: ast.ExprBase{Pos: pos}, Id: part, Ctx: ast.Load}
+			} else {
+				expr = &ast.Attribute{ExprBase: ast.ExprBase{Pos: pos}, Value: expr, Attr: part, Ctx: ast.Load}
+			}
+			start = i + 1
+		}
+	}
+	return expr
+}
+
 %}
 
 %union {
@@ -348,7 +368,7 @@ optional_arglist_call:
 decorator:
 	'@' dotted_name optional_arglist_call NEWLINE
 	{
-		fn := &ast.Name{ExprBase: ast.ExprBase{Pos: $<pos>$}, Id: ast.Identifier($2), Ctx: ast.Load}
+		fn := dottedNameExpr($<pos>$, $2)
 		if $3 == nil {
 			$$ = fn
 		} else {
